@@ -374,6 +374,51 @@ func runRequests(r *common.Run, sk *sink, caseNo int, rng *rand.Rand, seed int64
 			}
 		}(g)
 	}
+	// clients that give up: the request is issued with a generous library timeout, the client does
+	// not look at the result channel, waits about as long as a completion takes and releases the
+	// request object (deferred Release + a select that took the branch of the caller's own timer
+	// although the result had just arrived). An object released with an unconsumed result goes
+	// back to the pool; whoever gets it next must not see that result. Nothing is asserted about
+	// the abandoned requests themselves; the requests of the other clients are judged as always.
+	for g := 0; g < 3; g++ {
+		wg.Add(1)
+		go func(g int) {
+			defer wg.Done()
+			prng := rand.New(rand.NewSource(seed + 5000 + int64(g)*13))
+			for atomic.LoadInt32(&stopFlag) == 0 {
+				if atomic.LoadInt32(&pauseFlag) != 0 {
+					time.Sleep(5 * time.Millisecond)
+					continue
+				}
+				h := c.Hosts[prng.Intn(3)]
+				nh := h.NodeHost()
+				if nh == nil {
+					time.Sleep(5 * time.Millisecond)
+					continue
+				}
+				var rs *dragonboat.RequestState
+				var err error
+				if prng.Intn(3) == 0 {
+					rs, err = nh.ReadIndex(shardID, time.Second)
+				} else {
+					rs, err = nh.Propose(noopSession(h.Index, nh), cluster.MakeCmd(byte(prng.Intn(2)), cluster.NewID()), time.Second)
+				}
+				if err != nil {
+					time.Sleep(2 * time.Millisecond)
+					continue
+				}
+				time.Sleep(time.Duration(prng.Intn(12000)) * time.Microsecond)
+				// (the field, not ResultC(): with NotifyCommit that method starts a goroutine which
+				// bridges the two channels and keeps using the object until both results were taken)
+				if len(rs.CompletedC) > 0 {
+					sk.Count("requests_released_with_an_unconsumed_result", 1)
+				} else {
+					sk.Count("requests_abandoned_before_their_result", 1)
+				}
+				rs.Release()
+			}
+		}(g)
+	}
 	// operator
 	type opEvent struct {
 		What  string `json:"what"`
